@@ -8,6 +8,9 @@
  *   stress ticket   N ITERS   p_atomic_int_add (&x, 1) from N threads     -> "ticket dup <d> final <v> expected <..>"
  *   stress dectest  N ITERS   x = N*ITERS, every thread decrements ITERS times -> "dectest true <k> final <v>"
  *   stress casinc   N ITERS   increment by compare-and-exchange loop      -> "casinc final <v> expected <..>"
+ *   stress sb       ROUNDS    store buffering (Dekker): A: set(x,1); r1=get(y)   B: set(y,1); r2=get(x)   on fresh words,
+ *                             int and pointer flavour; r1 == r2 == 0 is forbidden when set/get are full barriers
+ *                                                                         -> "sb forbidden_int <k> forbidden_ptr <k> rounds <ROUNDS>"
  *   stress mp       ROUNDS    message passing: plain data, flag by p_atomic_int_set / _get
  *                                                                         -> "mp stale <k> rounds <ROUNDS>"
  * Exit status 0; oracles are evaluated by tools/props/c0{1,4}.py (and ThreadSanitizer's report). */
@@ -116,6 +119,39 @@ static void *mp_consumer (void *a) {
 	return NULL;
 }
 
+/* store buffering */
+typedef struct { volatile pint x; char p1[60]; volatile pint y; char p2[60]; ppointer px; char p3[56]; ppointer py; char p4[56]; } SBCell;
+static SBCell *sbc;
+static int *sb_ra, *sb_rb, *sb_pa, *sb_pb;
+static volatile int sb_gate[2];
+static void sb_sync (int me, int r) {      /* harness-level rendezvous every 32 rounds keeps the two threads overlapping */
+	if (r % 32) return;
+	__atomic_store_n (&sb_gate[me], r + 1, __ATOMIC_SEQ_CST);
+	while (__atomic_load_n (&sb_gate[1 - me], __ATOMIC_SEQ_CST) < r + 1) ;
+}
+static void *sb_a (void *a) {
+	int r; (void) a;
+	for (r = 0; r < ITERS; r++) {
+		sb_sync (0, r);
+		p_atomic_int_set (&sbc[r].x, 1);
+		sb_ra[r] = p_atomic_int_get (&sbc[r].y);
+		p_atomic_pointer_set (&sbc[r].px, (ppointer) &sbc[r]);
+		sb_pa[r] = p_atomic_pointer_get (&sbc[r].py) != NULL;
+	}
+	return NULL;
+}
+static void *sb_b (void *a) {
+	int r; (void) a;
+	for (r = 0; r < ITERS; r++) {
+		sb_sync (1, r);
+		p_atomic_int_set (&sbc[r].y, 1);
+		sb_rb[r] = p_atomic_int_get (&sbc[r].x);
+		p_atomic_pointer_set (&sbc[r].py, (ppointer) &sbc[r]);
+		sb_pb[r] = p_atomic_pointer_get (&sbc[r].px) != NULL;
+	}
+	return NULL;
+}
+
 static void run_threads (void *(*f) (void *)) {
 	pthread_t *th = malloc (sizeof (pthread_t) * (size_t) N);
 	int i;
@@ -152,6 +188,19 @@ int main (int argc, char **argv) {
 	} else if (!strcmp (mode, "casinc")) {
 		run_threads (w_casinc);
 		printf ("casinc final %d expected %d\n", (int) p_atomic_int_get (&X), N * ITERS);
+	} else if (!strcmp (mode, "sb")) {
+		pthread_t ta, tb;
+		long fi = 0, fp = 0;
+		int r;
+		ITERS = N;
+		sbc = calloc ((size_t) ITERS, sizeof (SBCell));
+		sb_ra = calloc ((size_t) ITERS, sizeof (int)); sb_rb = calloc ((size_t) ITERS, sizeof (int));
+		sb_pa = calloc ((size_t) ITERS, sizeof (int)); sb_pb = calloc ((size_t) ITERS, sizeof (int));
+		pthread_create (&ta, NULL, sb_a, NULL);
+		pthread_create (&tb, NULL, sb_b, NULL);
+		pthread_join (ta, NULL); pthread_join (tb, NULL);
+		for (r = 0; r < ITERS; r++) { if (!sb_ra[r] && !sb_rb[r]) fi++; if (!sb_pa[r] && !sb_pb[r]) fp++; }
+		printf ("sb forbidden_int %ld forbidden_ptr %ld rounds %d\n", fi, fp, ITERS);
 	} else if (!strcmp (mode, "mp")) {
 		pthread_t c;
 		int r;
